@@ -193,6 +193,9 @@ def check(run):
         cs = []
         specs = [rand_shell(rng, l, cs, nprim=rng.randint(1, 2), nseg=1, sph=False, exp_lo=0.1, exp_hi=10.0) for l in ls]
         quartet_orientation_case(run, specs)
+    from checks.common import mixed_tight_diffuse_quartets
+    for tag, q in mixed_tight_diffuse_quartets(full=not quick)[1:: (2 if quick else 1)]:
+        quartet_orientation_case(run, q, "tight/diffuse/moderate " + tag)
     # tight core s against diffuse d: the recorded finding
     core_s = ShellSpec(0, [0.0, 0.0, 0.0], [1e4], [1.0])
     core_s2 = ShellSpec(0, [0.0, 0.0, 0.0], [5e3], [1.0])
